@@ -49,3 +49,50 @@ func (cs *ContractState) VerifIsStaged(states *StateDB) bool {
 func VerifHash(value interface{}) []byte {
 	return newValueEntry(types.HashID{}, value).Hash()
 }
+
+// VerifEntryDigests renders every entry of the account buffer's undo log, oldest first, as
+// key ++ Marshal(value) (the real Marshal of statebuffer.go): what the log HOLDS, by value. The harness
+// checks that an entry, once written, never changes (the buffer stores *types.State pointers).
+func (states *StateDB) VerifEntryDigests() []string {
+	return verifDigests(states.Buffer)
+}
+
+// VerifCacheEntryDigests is the same for the staged storage of id (nil when there is none).
+func (states *StateDB) VerifCacheEntryDigests(id types.AccountID) []string {
+	st := states.Cache.get(id)
+	if st == nil {
+		return nil
+	}
+	return verifDigests(st.Buffer)
+}
+
+func verifDigests(b *stateBuffer) []string {
+	out := make([]string, len(b.entries))
+	for i, et := range b.entries {
+		k := et.KeyID()
+		buf, _ := Marshal(et.Value())
+		tag := "v"
+		if et.Value() == nil {
+			tag = "d"
+		}
+		out[i] = string(k[:]) + tag + string(buf)
+	}
+	return out
+}
+
+// VerifCacheObj returns the staged storage object of id as an opaque value (object identity only).
+func (states *StateDB) VerifCacheObj(id types.AccountID) interface{} {
+	if st := states.Cache.get(id); st != nil {
+		return st
+	}
+	return nil
+}
+
+// VerifCacheRoot returns the storage trie root and the buffer revision of the staged storage of id.
+func (states *StateDB) VerifCacheRoot(id types.AccountID) (root []byte, rev int, ok bool) {
+	st := states.Cache.get(id)
+	if st == nil {
+		return nil, 0, false
+	}
+	return st.Trie.Root, st.Buffer.snapshot(), true
+}
